@@ -4,6 +4,9 @@ package main
 // discharge obligations, compare with known findings, write evidence.
 
 import (
+	"os/exec"
+	"context"
+	"bytes"
 	"encoding/json"
 	"fmt"
 	"go/types"
@@ -33,7 +36,18 @@ type PropSpec struct {
 	Uncovered  []string `json:"uncovered"`
 	Notes      []string `json:"notes"`
 	Bounded    []string `json:"bounded"`
+	BoundedChecks []BoundedCheck `json:"bounded_checks"` // stand-ins for functions outside the verifier's reach: never counted as proved
 	Level      string   `json:"level"`
+}
+
+// BoundedCheck runs the real function against its intended contract on every
+// input up to a stated bound (an in-package Go test injected with -overlay).
+type BoundedCheck struct {
+	Name  string `json:"name"`  // obligation-like name: pkg.Func#bounded:label
+	Pkg   string `json:"pkg"`   // package directory relative to internal/
+	File  string `json:"file"`  // test source under /verif/bounded/
+	Bound string `json:"bound"` // the bound, in words
+	StandsFor string `json:"stands_for"`
 }
 
 type KnownFinding struct {
@@ -306,7 +320,7 @@ func discharge(g *group, timeoutS int, all bool) *ObligResult {
 			j = len(disj)
 		}
 		q := buildQuery([]*Term{Or(disj[i:j]...)}, want)
-		r := Solve(q, timeoutS, all)
+		r := SolveVariants(queryVariants(q, []*Term{Or(disj[i:j]...)}, want), timeoutS, all)
 		res.Ms += r.Ms
 		res.Backend = r.Backend
 		res.query = q
@@ -337,6 +351,19 @@ func discharge(g *group, timeoutS int, all bool) *ObligResult {
 	return res
 }
 
+// queryVariants returns the plain query and, where strings occur only under
+// equality, arrays and uninterpreted functions below quantifiers, the same
+// query with String replaced by an uninterpreted sort (abstract.go).
+func queryVariants(q string, asserts []*Term, want []*Term) []string {
+	if os.Getenv("GOVC_NO_ABSTRACT") != "" {
+		return []string{q}
+	}
+	if as, w, ok := abstractStrings(asserts, want); ok {
+		return []string{q, buildQuery(as, w)}
+	}
+	return []string{q}
+}
+
 // dischargeEach decides the paths of one obligation one query per path.
 func dischargeEach(disj []*Term, want []*Term, timeoutS int, all bool, res *ObligResult) string {
 	type one struct {
@@ -350,7 +377,7 @@ func dischargeEach(disj []*Term, want []*Term, timeoutS int, all bool, res *Obli
 		go func(i int) {
 			defer wg.Done()
 			q := buildQuery([]*Term{disj[i]}, want)
-			out[i] = one{q, Solve(q, timeoutS, all)}
+			out[i] = one{q, SolveVariants(queryVariants(q, []*Term{disj[i]}, want), timeoutS, all)}
 		}(i)
 	}
 	wg.Wait()
@@ -784,6 +811,33 @@ func checkProperty(id, tier string) int {
 		exit = 1
 	}
 
+	// bounded stand-ins
+	var boundedOut []map[string]interface{}
+	for _, bc := range prop.BoundedChecks {
+		out, failedB, err := runBoundedCheck(bc)
+		st := "held on every input within the bound"
+		if err != nil {
+			st = "could not run: " + err.Error()
+			engineErrs = append(engineErrs, "bounded check "+bc.Name+": "+err.Error())
+			p := writeReplay(id, "bounded-"+bc.Name, map[string]interface{}{"bounded_check": bc, "error": err.Error(), "output": out})
+			fmt.Printf("VIOLATION property=%s replay=%s obligation=%s no-failing-input-found\n", id, p, bc.Name)
+			exit = 1
+		} else if failedB {
+			st = "FAILED"
+			if _, ok := knownByName[bc.Name]; ok {
+				fmt.Printf("KNOWN-FINDING: property=%s %s %s\n", id, bc.Name, knownByName[bc.Name].What)
+				st = "known finding"
+			} else {
+				p := writeReplay(id, "bounded-"+bc.Name, map[string]interface{}{"bounded_check": bc, "reproduced_on_real_code": true, "output": out,
+					"how_to_rerun": "go test -overlay with /verif/bounded/" + bc.File + " placed in internal/" + bc.Pkg + " (-run TestGovcBounded)"})
+				fmt.Printf("VIOLATION property=%s replay=%s obligation=%s\n", id, p, bc.Name)
+				exit = 1
+				failed++
+			}
+		}
+		boundedOut = append(boundedOut, map[string]interface{}{"name": bc.Name, "bound": bc.Bound, "stands_for": bc.StandsFor, "status": st, "counted_as_proved": false})
+	}
+
 	// evidence
 	var samples []interface{}
 	for _, r := range results {
@@ -832,6 +886,7 @@ func checkProperty(id, tier string) int {
 		"samples":                  samples,
 		"uncovered":                prop.Uncovered,
 		"bounded":                  prop.Bounded,
+		"bounded_checks":           boundedOut,
 		"engine_errors":            engineErrs,
 		"vacuity_covers":           len(covers),
 		"explanation":              levelText(prop, total, discharged, knownHit),
@@ -875,4 +930,44 @@ func writeReplay(id, name string, payload map[string]interface{}) string {
 	b, _ := json.MarshalIndent(payload, "", " ")
 	os.WriteFile(p, b, 0o644)
 	return p
+}
+
+func runBoundedCheck(bc BoundedCheck) (string, bool, error) {
+	src := filepath.Join(verifDir(), "bounded", bc.File)
+	if _, err := os.Stat(src); err != nil {
+		return "", false, err
+	}
+	dir := filepath.Join(repoDir(), "internal", bc.Pkg)
+	tmp, err := os.MkdirTemp("", "govc-bounded-")
+	if err != nil {
+		return "", false, err
+	}
+	defer os.RemoveAll(tmp)
+	ov := map[string]map[string]string{"Replace": {filepath.Join(dir, "zz_govc_bounded_test.go"): src}}
+	ob, _ := json.Marshal(ov)
+	of := filepath.Join(tmp, "overlay.json")
+	os.WriteFile(of, ob, 0o644)
+	ctx, cancel := context.WithTimeout(context.Background(), 300*time.Second)
+	defer cancel()
+	cmd := exec.CommandContext(ctx, "go", "test", "-overlay", of, "-vet=off", "-count=1", "-timeout", "240s", "-run", "^TestGovcBounded", ".")
+	cmd.Dir = dir
+	cmd.Env = append(os.Environ(), "GOFLAGS=-mod=mod", "GOPROXY=off", "GOSUMDB=off", "GOTOOLCHAIN=local", "DTAIL_HOSTNAME_OVERRIDE=replayhost")
+	var out bytes.Buffer
+	cmd.Stdout = &out
+	cmd.Stderr = &out
+	runErr := cmd.Run()
+	o := out.String()
+	if len(o) > 6000 {
+		o = o[:6000] + "..."
+	}
+	if runErr == nil {
+		if !strings.Contains(o, "ok") {
+			return o, false, fmt.Errorf("bounded test did not run")
+		}
+		return o, false, nil
+	}
+	if strings.Contains(o, "GOVC-BOUNDED-FAIL") {
+		return o, true, nil
+	}
+	return o, false, fmt.Errorf("bounded test did not complete: %v", runErr)
 }
